@@ -219,8 +219,21 @@ class SyntaxCheckInstance(Visitor):
             self._visit_expr(c, ctx)
 
     def _visit_list_comp(self, e: ListComp, ctx: _Ctx):
-        for target, iterable in zip(e.targets, e.iterables):
-            self._visit_expr(iterable, ctx)
+        bound: set[NamedId] = set()
+        for i, (target, iterable) in enumerate(zip(e.targets, e.iterables)):
+            iter_ctx = ctx
+            if i > 0:
+                # Only the first iterable is evaluated in the enclosing scope.
+                # The others run inside the comprehension, where each of its
+                # targets is a local: one that is not bound yet cannot be
+                # read, whatever the enclosing scope calls by that name.
+                hidden = _Env(ctx.env.env, terminated=ctx.env.terminated)
+                for later in e.targets[i:]:
+                    for name in later.names() - bound:
+                        hidden.env.pop(name, None)
+                iter_ctx = _Ctx(hidden, ctx.within_call)
+            self._visit_expr(iterable, iter_ctx)
+            bound |= target.names()
             env = self._visit_binding(target, ctx.env)
             ctx = _Ctx(env, ctx.within_call)
         self._visit_expr(e.elt, _Ctx(env, ctx.within_call))
